@@ -189,6 +189,11 @@ def whole_run_cases(rng, n, modes, workdir, oc, label="whole-run"):
         if not P.well_formed():
             continue
         P.no_fast_check = rng.random() < 0.3
+        r_ = rng.random()
+        if r_ < 0.12:
+            P.only_erasures = True                      # alone: implies erasure detection (as repaired)
+        elif r_ < 0.3:
+            P.erasures, P.only_erasures = True, rng.random() < 0.3
         tree = es.gen_tree(rng, P, nfiles=rng.randint(1, 4), maxsize=300)
         if bsize is not None and bsize < 1500:
             tree["edge.bin"] = bytes(rng.randrange(256) for _ in range(bsize))
